@@ -100,7 +100,8 @@ class BasedRule(Rule):
 
     @cached_property
     def defines_single(self) -> list[str]:
-        return list(set(self.exp.defines_single))
+        # note: with the base rule's, as for the list-valued names below
+        return list(set(self.exp.defines_single) | set(self.rhs.defines_single))
 
     @cached_property
     def defines_list(self) -> list[str]:
